@@ -331,7 +331,10 @@ impl HeapBuffer {
 
     unsafe fn allocation(&self) -> *mut u8 {
         unsafe {
-            if self.len.is_heap() {
+            // Whether the block starts with the length slot is a property of the capacity it was
+            // allocated with (see `layout_from_capacity`), not of the current length: a buffer with
+            // a large capacity keeps the slot even while its length is stored inline.
+            if is_len_heap_layout(self.header().capacity) {
                 cold_path();
                 self.ptr.as_ptr().cast::<u8>().sub(Self::header_offset()).sub(size_of::<usize>())
             } else {
